@@ -90,6 +90,9 @@ def run(ctx):
     ctx.guard('L-SEXT', 'prel31', check_prel31, ctx, w)
     ctx.floor('L-SEXT', 3)
     ctx.guard('G-RING', 'ring', check_ring, ctx, w)
+    ctx.rule('G-REGS', 'register-list byte-codes name exactly the registers of IHI 0038 Table 4 for every operand byte')
+    ctx.guard('G-REGS', 'register lists', check_reglists, ctx, w)
+    ctx.floor('G-REGS', 9)
     ctx.floor('G-RING', 530)
 
 
@@ -533,6 +536,9 @@ def _fold_consts(e):
 
 
 MUTANTS = [
+    ('regs-vfp-base', DEC, "        start = 16 + ((op1 & 0xf0) >> 4)", "        start = 8 + ((op1 & 0xf0) >> 4)", 'G-REGS'),
+    ('regs-range-count', DEC, "        return ((1 << (count + 1)) - 1) << start", "        return ((1 << count) - 1) << start", 'G-REGS'),
+    ('regs-r14-dropped', DEC, "self._calculate_range(4, opcode & 0x07) | (1 << 14))", "self._calculate_range(4, opcode & 0x07))", 'G-REGS'),
     ('ring-mask', DEC, "_DECODE_RECIPE_TYPE(mask=0xf8, value=0xa8, handler=_decode_10101nnn),", "_DECODE_RECIPE_TYPE(mask=0xf0, value=0xa8, handler=_decode_10101nnn),", 'G-RING'),
     ('ring-value', DEC, "_DECODE_RECIPE_TYPE(mask=0xff, value=0xc8, handler=_decode_11001000_sssscccc),", "_DECODE_RECIPE_TYPE(mask=0xff, value=0xca, handler=_decode_11001000_sssscccc),", 'G-RING'),
     ('ring-order', DEC, "        _DECODE_RECIPE_TYPE(mask=0xff, value=0x9d, handler=_decode_10011101),\n        _DECODE_RECIPE_TYPE(mask=0xff, value=0x9f, handler=_decode_10011111),\n        _DECODE_RECIPE_TYPE(mask=0xf0, value=0x90, handler=_decode_1001nnnn),",
@@ -552,3 +558,80 @@ MUTANTS = [
     ('eh-be', 'ehabi/structs.py', "            self.EHABI_uint32 = UBInt32", "            self.EHABI_uint32 = ULInt32", 'I-STRIDE'),
     ('compat-order', SEC, "            self.value = struct_parse(structs.Elf_uleb128('value'), stream)\n            self.extra = struct_parse(structs.Elf_ntbs('vendor_name',", "            self.value = struct_parse(structs.Elf_uleb128('value'), stream)\n            self.extra = struct_parse(structs.Elf_uleb128('vendor_name',", 'G-SIG'),
 ]
+
+
+# IHI 0038B Table 4 (and LLVM ARMEHABIPrinter): handler -> (printer, prefix, register set as a function of the operand byte)
+REGLISTS = {
+    '_decode_10100nnn': ('_printGPR', None, lambda b: set(range(4, 4 + (b & 7) + 1))),
+    '_decode_10101nnn': ('_printGPR', None, lambda b: set(range(4, 4 + (b & 7) + 1)) | {14}),
+    '_decode_10111nnn': ('_print_registers', 'd', lambda b: set(range(8, 8 + (b & 7) + 1))),
+    '_decode_11010nnn': ('_print_registers', 'd', lambda b: set(range(8, 8 + (b & 7) + 1))),
+    '_decode_11000nnn': ('_print_registers', 'wR', lambda b: set(range(10, 10 + (b & 7) + 1))),
+    '_decode_11000110_sssscccc': ('_print_registers', 'wR', lambda b: set(range(b >> 4, (b >> 4) + (b & 15) + 1))),
+    '_decode_11001000_sssscccc': ('_print_registers', 'd', lambda b: set(range(16 + (b >> 4), 16 + (b >> 4) + (b & 15) + 1))),
+    '_decode_11001001_sssscccc': ('_print_registers', 'd', lambda b: set(range(b >> 4, (b >> 4) + (b & 15) + 1))),
+    '_decode_10110011_sssscccc': ('_print_registers', 'd', lambda b: set(range(b >> 4, (b >> 4) + (b & 15) + 1))),
+}
+_FOLDABLE = (ast.Expression, ast.BinOp, ast.UnaryOp, ast.Constant, ast.Name, ast.Load, ast.LShift, ast.RShift, ast.BitAnd, ast.BitOr, ast.BitXor, ast.Add, ast.Sub,
+             ast.Mult, ast.Invert, ast.USub, ast.FloorDiv, ast.Mod)
+
+
+def _mask_expr(w, cls_q, name, depth=0):
+    """(printer name, prefix text, mask expression AST over the operand byte `B`) of a register-list handler: the argument of the printer
+    call in its single return, locals replaced by what the path assigned, the operand read written as B, _calculate_range written out
+    from the tree's own definition; a handler that only delegates to another is followed."""
+    import copy
+    f = w.model.func(DEC, cls_q + '.' + name)
+    ps = [p for p in paths.func_paths(f.node) if p.end[0] == 'return']
+    if len(ps) != 1 or ps[0].end[1] is None:
+        return None
+    ret = ps[0].end[1]
+    if isinstance(ret, ast.Call) and isinstance(ret.func, ast.Attribute) and ret.func.attr.startswith('_decode_') and not ret.args and depth < 3:
+        return _mask_expr(w, cls_q, ret.func.attr, depth + 1)
+    store = expr.path_store(ps[0])
+    e = expr._StoreSubst(store).visit(copy.deepcopy(ret))
+    calls = [c for c in ast.walk(e) if isinstance(c, ast.Call) and isinstance(c.func, ast.Attribute) and c.func.attr in ('_print_registers', '_printGPR')]
+    if len(calls) != 1 or not calls[0].args:
+        return None
+    prefix = U(calls[0].args[1]) if len(calls[0].args) > 1 else None
+    cr = w.model.func(DEC, cls_q + '._calculate_range')
+    crr = [r.value for r in expr.returns_of(cr.node)]
+    crp = [a.arg for a in cr.node.args.args if a.arg != 'self']
+
+    class T(ast.NodeTransformer):
+        def visit_Subscript(s, n):
+            if U(n) == 'self._bytecode_array[self._index]':
+                return ast.Name(id='B', ctx=ast.Load())
+            return s.generic_visit(n)
+
+        def visit_Call(s, n):
+            s.generic_visit(n)
+            if isinstance(n.func, ast.Attribute) and n.func.attr == '_calculate_range' and len(crr) == 1 and len(n.args) == len(crp) and not n.keywords:
+                return expr._StoreSubst(dict(zip(crp, n.args))).visit(copy.deepcopy(crr[0]))
+            return n
+    m = T().visit(copy.deepcopy(calls[0].args[0]))
+    return calls[0].func.attr, prefix, m
+
+
+def check_reglists(ctx, w):
+    cls_q = 'EHABIBytecodeDecoder'
+    for name, (printer, prefix, regs) in sorted(REGLISTS.items()):
+        construct = '%s:%s.%s' % (DEC, cls_q, name)
+        r = _mask_expr(w, cls_q, name)
+        if r is None:
+            raise AnalysisError('G-REGS', construct, 'register mask expression not found')
+        gp, gprefix, m = r
+        bad_nodes = [type(x).__name__ for x in ast.walk(m) if not isinstance(x, _FOLDABLE) or (isinstance(x, ast.Name) and x.id != 'B')]
+        if bad_nodes:
+            raise AnalysisError('G-REGS', construct, 'register mask is not an arithmetic expression of the operand byte: %s' % U(m))
+        code = compile(ast.fix_missing_locations(ast.Expression(body=m)), '<mask>', 'eval')      # constant folding over the 256 operand values
+        wrong = []
+        for b in range(256):
+            v = eval(code, {'__builtins__': {}}, {'B': b})
+            got = set(i for i in range(32) if v & (1 << i))
+            want = set(i for i in regs(b) if i < 32)
+            if got != want:
+                wrong.append((hex(b), sorted(got), sorted(want)))
+        ctx.ob('G-REGS', construct, 'registers named for every operand byte', not wrong and gp == printer and (prefix is None or gprefix == repr(prefix)),
+               got=wrong[:2] or (gp, gprefix), expected='IHI 0038 Table 4', sample='%s: %s %s over 256 operand values' % (name, printer, prefix or 'core'),
+               msg='for some operand byte the disassembly names other registers than the EHABI table assigns to this byte-code')
